@@ -1,0 +1,125 @@
+//! Stand-ins for what `workload.rs` takes from std, crossbeam and rayon, built on
+//! [shuttle](https://docs.rs/shuttle) so an external simulator decides every interleaving.
+//!
+//! Only compiled with `--cfg fontc_verif`, and only buildable through a manifest that
+//! supplies the `shuttle` crate; the regular build never sees this module.
+
+use std::cell::RefCell;
+
+pub(crate) use shuttle::sync::{
+    Arc, Mutex,
+    atomic::{AtomicBool, AtomicUsize, Ordering},
+    mpsc::{Receiver, TryRecvError},
+};
+use shuttle::{
+    sync::{Condvar, mpsc::Sender},
+    thread::JoinHandle,
+};
+
+/// Stands in for `crossbeam_channel::unbounded`
+pub(crate) fn unbounded<T>() -> (Sender<T>, Receiver<T>) {
+    shuttle::sync::mpsc::channel()
+}
+
+/// Number of simulated pool workers for scopes created from now on; 0 means no limit.
+pub fn set_workers(n: usize) {
+    WORKERS.store(n, std::sync::atomic::Ordering::SeqCst);
+}
+
+/// Stack size of simulated pool workers.
+pub fn set_worker_stack(bytes: usize) {
+    WORKER_STACK.store(bytes, std::sync::atomic::Ordering::SeqCst);
+}
+
+static WORKERS: std::sync::atomic::AtomicUsize = std::sync::atomic::AtomicUsize::new(0);
+// rayon workers get std's default, 2 MiB
+static WORKER_STACK: std::sync::atomic::AtomicUsize =
+    std::sync::atomic::AtomicUsize::new(2 * 1024 * 1024);
+
+struct Permits {
+    free: Mutex<usize>,
+    released: Condvar,
+}
+
+impl Permits {
+    fn acquire(&self) {
+        let mut free = self.free.lock().unwrap();
+        while *free == 0 {
+            free = self.released.wait(free).unwrap();
+        }
+        *free -= 1;
+    }
+
+    fn release(&self) {
+        *self.free.lock().unwrap() += 1;
+        self.released.notify_one();
+    }
+}
+
+/// Stands in for `rayon::Scope`: every spawn is a simulated thread that first has to
+/// obtain one of the pool's worker permits.
+pub(crate) struct Scope {
+    permits: Option<Arc<Permits>>,
+    spawned: RefCell<Vec<JoinHandle<()>>>,
+}
+
+impl Scope {
+    pub(crate) fn spawn<F>(&self, func: F)
+    where
+        F: FnOnce(&Scope) + Send + 'static,
+    {
+        let permits = self.permits.clone();
+        let handle = shuttle::thread::Builder::new()
+            .stack_size(WORKER_STACK.load(std::sync::atomic::Ordering::SeqCst))
+            .spawn(move || {
+                if let Some(permits) = permits.as_ref() {
+                    permits.acquire();
+                }
+                let inner = Scope {
+                    permits: permits.clone(),
+                    spawned: Default::default(),
+                };
+                // a job body never unwinds past its own catch_unwind; if the code around it
+                // does, the permit is not given back, like a pool that lost a worker
+                func(&inner);
+                inner.join_all();
+                if let Some(permits) = permits.as_ref() {
+                    permits.release();
+                }
+            })
+            .expect("spawn simulated worker");
+        self.spawned.borrow_mut().push(handle);
+    }
+
+    fn join_all(&self) {
+        loop {
+            let Some(handle) = self.spawned.borrow_mut().pop() else {
+                break;
+            };
+            if let Err(e) = handle.join() {
+                std::panic::resume_unwind(e);
+            }
+        }
+    }
+}
+
+/// Stands in for `ThreadPool::in_place_scope`: runs `op` on the calling (simulated) thread,
+/// then waits for everything it spawned.
+pub(crate) fn in_place_scope<R>(op: impl FnOnce(&Scope) -> R) -> R {
+    let workers = WORKERS.load(std::sync::atomic::Ordering::SeqCst);
+    let scope = Scope {
+        permits: (workers > 0).then(|| {
+            Arc::new(Permits {
+                free: Mutex::new(workers),
+                released: Condvar::new(),
+            })
+        }),
+        spawned: Default::default(),
+    };
+    let result = std::panic::catch_unwind(std::panic::AssertUnwindSafe(|| op(&scope)));
+    scope.join_all();
+    match result {
+        Ok(r) => r,
+        Err(e) => std::panic::resume_unwind(e),
+    }
+}
